@@ -3,6 +3,7 @@ package sym
 import (
 	"fmt"
 	"math"
+	"math/big"
 	"sort"
 
 	"gosym/smt"
@@ -37,6 +38,11 @@ type PathState struct {
 	Prefix []Decision
 	Trace  []Decision
 	Pending [][]Decision
+	PendingModels []smt.Model
+	StartModel smt.Model
+	model   smt.Model // a model of the current path condition, if known
+	hints   map[string]float64
+	ModelHits int
 	PC     []*smt.Term
 	pcTrue  map[int]bool
 	pcFalse map[int]bool
@@ -83,6 +89,11 @@ func (p *PathState) addPC(in *Interp, t *smt.Term) {
 	if p.pcTrue[t.ID] {
 		return
 	}
+	if p.model != nil {
+		if v, ok := p.evalModel(in, t); !ok || !v {
+			p.model = nil
+		}
+	}
 	p.PC = append(p.PC, t)
 	p.pcTrue[t.ID] = true
 	if t.Op == smt.ONot {
@@ -118,12 +129,48 @@ func (p *PathState) known(t *smt.Term) (bool, bool) {
 	return false, false
 }
 
-func (p *PathState) schedule(d Decision) {
+func (p *PathState) schedule(d Decision) { p.scheduleM(d, nil) }
+
+func (p *PathState) scheduleM(d Decision, m smt.Model) {
 	n := make([]Decision, len(p.Trace)+1)
 	copy(n, p.Trace)
 	n[len(p.Trace)] = d
 	p.Pending = append(p.Pending, n)
+	p.PendingModels = append(p.PendingModels, m)
 	p.Forks++
+}
+
+// evalModel evaluates a condition under the current model of the path condition (exactly).
+func (p *PathState) evalModel(in *Interp, t *smt.Term) (bool, bool) {
+	if p.model == nil || in.C.Mode != smt.REAL {
+		return false, false
+	}
+	_, b, ok := in.C.EvalExact(t, func(n string) (*big.Rat, bool) {
+		if mv, ok := p.model[n]; ok {
+			if mv.R == nil || mv.Inexact {
+				return nil, false
+			}
+			return mv.R, true
+		}
+		r := new(big.Rat)
+		if h, ok := p.hints[n]; ok {
+			r.SetFloat64(h)
+		}
+		return r, true
+	}, func(n string) (bool, bool) {
+		if mv, ok := p.model[n]; ok {
+			return mv.B, true
+		}
+		return false, true
+	})
+	return b, ok
+}
+
+func (p *PathState) Hint(name string, v float64) {
+	if p.hints == nil {
+		p.hints = map[string]float64{}
+	}
+	p.hints[name] = v
 }
 
 func b2i(b bool) int64 {
@@ -147,35 +194,62 @@ func (p *PathState) DecideBool(in *Interp, c *smt.Term, why string) bool {
 			panic(fmt.Sprintf("engine: decision log out of sync at %d: want branch, have %c (%s)", len(p.Trace), d.Kind, why))
 		}
 		p.Trace = append(p.Trace, d)
-		if d.V == 1 {
-			p.addPC(in, c)
-		} else {
-			p.addPC(in, in.C.Not(c))
+		cc := c
+		if d.V != 1 {
+			cc = in.C.Not(c)
+		}
+		p.addPC(in, cc)
+		if p.fresh() && p.StartModel != nil {
+			p.model = p.StartModel
+			if v, ok := p.evalModel(in, cc); !ok || !v {
+				p.model = nil
+			}
 		}
 		return d.V == 1
 	}
-	rT := in.S.Check(p.TimeoutFeas, c)
-	var rF smt.Result
-	if rT == smt.Unsat {
-		rF = smt.Sat
-	} else {
-		rF = in.S.Check(p.TimeoutFeas, in.C.Not(c))
-	}
-	if rT == smt.Unknown {
-		p.Unknowns++
-	}
-	if rF == smt.Unknown {
-		p.Unknowns++
-	}
 	var take bool
-	switch {
-	case rT == smt.Unsat:
-		take = false
-	case rF == smt.Unsat:
-		take = true
-	default:
-		take = true
-		p.schedule(Decision{'b', 0})
+	if mv, ok := p.evalModel(in, c); ok {
+		// the model of the path condition already witnesses one side: only the other needs the solver
+		p.ModelHits++
+		other := c
+		if mv {
+			other = in.C.Not(c)
+		}
+		r, m := in.S.CheckModel(p.TimeoutFeas, in.C.Vars, other)
+		if r == smt.Unknown {
+			p.Unknowns++
+		}
+		take = mv
+		if r != smt.Unsat {
+			p.scheduleM(Decision{'b', b2i(!mv)}, m)
+		}
+	} else {
+		rT, mT := in.S.CheckModel(p.TimeoutFeas, in.C.Vars, c)
+		var rF smt.Result
+		var mF smt.Model
+		if rT == smt.Unsat {
+			rF = smt.Sat
+		} else {
+			rF, mF = in.S.CheckModel(p.TimeoutFeas, in.C.Vars, in.C.Not(c))
+		}
+		if rT == smt.Unknown {
+			p.Unknowns++
+		}
+		if rF == smt.Unknown {
+			p.Unknowns++
+		}
+		switch {
+		case rT == smt.Unsat:
+			take = false
+			p.model = mF
+		case rF == smt.Unsat:
+			take = true
+			p.model = mT
+		default:
+			take = true
+			p.model = mT
+			p.scheduleM(Decision{'b', 0}, mF)
+		}
 	}
 	p.Trace = append(p.Trace, Decision{'b', b2i(take)})
 	if take {
@@ -282,7 +356,7 @@ func (p *PathState) ConcretizeInt(in *Interp, x *smt.Term, why string) int64 {
 		}
 		k := int64(math.Trunc(f))
 		// the model value may be inexact: make sure the class is really feasible
-		if mv.Inexact {
+		if mv.Inexact || mv.FInexact {
 			ok := false
 			for _, cand := range []int64{k, k - 1, k + 1} {
 				if in.S.Check(p.TimeoutFeas, append(append([]*smt.Term{}, blocks...), truncConstraint(in.C, x, cand))...) == smt.Sat {
@@ -402,7 +476,7 @@ func (p *PathState) modelOf(in *Interp, m smt.Model) map[string]interface{} {
 			if mv.R != nil {
 				e["rat"] = mv.R.RatString()
 			}
-			if mv.Inexact {
+			if mv.Inexact || mv.FInexact {
 				e["inexact"] = true
 			}
 			out[v.Name] = e
